@@ -37,3 +37,6 @@ func VerifKeeper(res *DBResource) *sync.Map { return &res.keeper }
 func VerifNewDBResource(resourceID string, db *sql.DB, dbType types.DBType) *DBResource {
 	return &DBResource{resourceID: resourceID, db: db, dbType: dbType, branchType: branch.BranchTypeAT}
 }
+
+// VerifStopAsyncWorker ends the commit workers of an AsyncWorker built by a check (its run loop has no exit of its own).
+func VerifStopAsyncWorker(aw *AsyncWorker) { aw.commitWorker.Close() }
